@@ -74,7 +74,7 @@ def start_messages(tier):
     out = []
     for mt, fields in base.items():
         perms = list(itertools.permutations(fields))
-        if tier == 'quick':
+        if tier == 'oldquick':
             perms = perms[::5] if len(perms) > 24 else perms
         for perm in perms:
             for body in ([], [(b's', b'body')]):
@@ -199,7 +199,7 @@ def run(ctx):
     seen = set(starts)
     transitions = 0
     pool = Pool()
-    depth_plan = [(1, len(starts), ops1), (2, 24 if quick else 200, ops_deep), (3, 2 if quick else 12, ops_deep)]
+    depth_plan = [(1, len(starts), ops1), (2, 200 if quick else 2000, ops_deep), (3, 12 if quick else 200, ops_deep)] + ([] if quick else [(4, 20, ops_deep)])
     frontier = [(s, [], s) for s in starts]
     completed_depth = 0
     try:
